@@ -504,6 +504,79 @@ theorem parse_exportV21 {c : CryptoOps} {pointOk : Bytes → Bool} {ca : Bool} {
       ← wi.sig, iskParse_ok pointOk i wi' tail, pure_eq_ok, ← hi]
 
 
+
+/-! ### self-delimiting exports (for the containers that embed a certificate block: MBI, SB 2.1, SB 3.1) -/
+
+/-- certificate block v1: parsing `body ‖ anything` gives the block back - the parser reads exactly the `32 + cert_table_length +
+    128` bytes the header announces (padding and whatever follows the block are ignored) -/
+theorem parse_bodyV1_tail (certOk : Bytes → Bool) (cb : CertBlockV1) (wf : WFv1 certOk cb) (pad : Bytes) :
+    parseV1Block certOk (bodyV1 cb ++ pad) = .ok { cb with rkh := pad4 cb.rkh, alignment := G.cbV1Alignment } := by
+  have p32 : (2 : Nat) ^ 32 = 256 ^ 4 := by decide
+  have hsig : G.cbV1Signature.length = 4 := rfl
+  have hpl : (pad4 cb.rkh).flatten.length = 128 := by
+    rw [flatten32 _ (pad4_32 _ wf.rkh), pad4_len _ wf.rkh_len]
+  have hb : bodyV1 cb ++ pad = G.cbV1Signature ++ (leEnc 2 cb.major ++ (leEnc 2 cb.minor ++ (leEnc 4 32 ++ (leEnc 4 cb.flags ++
+      (leEnc 4 cb.buildNumber ++ (leEnc 4 cb.imageLength ++ (leEnc 4 cb.certs.length ++
+      (leEnc 4 (certTableLength cb.certs) ++ ((cb.certs.map (fun c => leEnc 4 c.length ++ c)).flatten ++
+        ((pad4 cb.rkh).flatten ++ pad)))))))))) := by
+    simp only [bodyV1, List.append_assoc]
+  have hlen : (bodyV1 cb ++ pad).length = 32 + certTableLength cb.certs + 128 + pad.length := by
+    simp only [List.length_append, bodyV1_len certOk cb wf]
+  have hdrop : (bodyV1 cb ++ pad).drop 32 = (cb.certs.map (fun c => leEnc 4 c.length ++ c)).flatten ++ ((pad4 cb.rkh).flatten ++ pad) := by
+    rw [hb]
+    have : ∀ (t : Bytes), G.cbV1Signature ++ (leEnc 2 cb.major ++ (leEnc 2 cb.minor ++ (leEnc 4 32 ++ (leEnc 4 cb.flags ++
+      (leEnc 4 cb.buildNumber ++ (leEnc 4 cb.imageLength ++ (leEnc 4 cb.certs.length ++
+      (leEnc 4 (certTableLength cb.certs) ++ t)))))))) = (G.cbV1Signature ++ leEnc 2 cb.major ++ leEnc 2 cb.minor ++ leEnc 4 32 ++ leEnc 4 cb.flags ++
+      leEnc 4 cb.buildNumber ++ leEnc 4 cb.imageLength ++ leEnc 4 cb.certs.length ++
+      leEnc 4 (certTableLength cb.certs)) ++ t := by intro t; simp only [List.append_assoc]
+    rw [this]
+    exact List.drop_left' (by simp only [List.length_append, leEnc_len, hsig])
+  have hh : headerV1Parse (bodyV1 cb ++ pad) = .ok (hdrOf cb) := by rw [hb]; exact headerV1Parse_ok certOk cb wf _
+  have e32 : G.rkhV1Size = 32 := rfl
+  have e4 : G.rkhtV1Slots = 4 := rfl
+  have hnl : ¬ ((bodyV1 cb ++ pad).length < certTableLength cb.certs + 4 * 32) := by rw [hlen]; omega
+  simp only [parseV1Block, hh, bind_ok, hdrOf, e32, e4, hnl, ↓reduceIte, headerSizeV1, hdrop,
+    certsParse_ok certOk cb.certs _ (fun c hc => by rw [← p32]; exact wf.certs c hc),
+    List.take_left' (show (pad4 cb.rkh).flatten.length = 32 * 4 from hpl), rkhtV1Parse_pad4 cb.rkh wf.rkh_len wf.rkh,
+    pure_eq_ok]
+
+/-- `parse (export cb ‖ rest)` = `parse (export cb)`: a v1 block followed by anything parses to the same block -/
+theorem parse_exportV1_tail (certOk : Bytes → Bool) (cb : CertBlockV1) (wf : WFv1 certOk cb) (rest : Bytes) :
+    parseV1Block certOk (bytesV1 cb ++ rest) = .ok { cb with rkh := pad4 cb.rkh, alignment := G.cbV1Alignment } := by
+  unfold bytesV1; rw [List.append_assoc]; exact parse_bodyV1_tail certOk cb wf _
+
+/-- `CertBlockV1.expected_size` / `raw_size`: the exported length is the aligned sum the header announces -/
+theorem bytesV1_length (certOk : Bytes → Bool) (cb : CertBlockV1) (wf : WFv1 certOk cb) :
+    (bytesV1 cb).length = alignNat (32 + certTableLength cb.certs + 128) cb.alignment := by
+  have ha := (alignNat_spec (bodyV1 cb).length cb.alignment wf.align).2.1
+  simp only [bytesV1, List.length_append, List.length_replicate]
+  rw [Nat.add_sub_cancel' ha, bodyV1_len certOk cb wf]
+
+/-- `CertBlockV21.expected_size` = the `cert_block_size` word = the exported length:
+    12 + (4 + table + root key) + (ISK: 12 + key + user data + signature) -/
+theorem bytesV21_length (cb : CertBlockV21) :
+    (bytesV21 cb).length = headerSizeV21 + (rkrBytes cb.rkr).length + (match cb.isk with | some i => (iskBytes i).length | none => 0) ∧
+    (rkrBytes cb.rkr).length = 4 + (exportV21 cb.rkr.rkh).length + cb.rkr.rootPublicKey.length ∧
+    ∀ i, (iskBytes i).length = 12 + i.pubKey.length + i.userData.length + i.signature.length := by
+  have hm : G.cbV21Magic.length = 4 := rfl
+  refine ⟨?_, by simp only [rkrBytes, List.length_append, leEnc_len], fun i => by simp only [iskBytes, List.length_append, leEnc_len]⟩
+  cases cb with
+  | mk ma mi r isk => cases isk <;> simp only [bytesV21, List.length_append, leEnc_len, hm, headerSizeV21, List.length_nil] <;> omega
+
+/-- the size word of the exported v2.1 block is its length, so a reader that knows only the block start can skip it -/
+theorem sizeWord_bytesV21 {c : CryptoOps} {pointOk : Bytes → Bool} {ca : Bool} {used : Nat} {cv : Curve} {cb : CertBlockV21}
+    (wf : WFv21 c pointOk ca used cv cb) (rest : Bytes) :
+    headerV21Parse (bytesV21 cb ++ rest) = .ok (cb.major, cb.minor, (bytesV21 cb).length) := by
+  have hsz := wf.size
+  rw [(bytesV21_length cb).1]
+  have hb : bytesV21 cb ++ rest = G.cbV21Magic ++ (leEnc 2 cb.minor ++ (leEnc 2 cb.major ++
+      (leEnc 4 (headerSizeV21 + (rkrBytes cb.rkr).length + (match cb.isk with | some i => (iskBytes i).length | none => 0)) ++
+        (rkrBytes cb.rkr ++ ((match cb.isk with | some i => iskBytes i | none => []) ++ rest))))) := by
+    cases cb with
+    | mk ma mi r isk => cases isk <;> simp [bytesV21, List.append_assoc]
+  rw [hb]
+  exact headerV21Parse_ok _ _ _ wf.major wf.minor hsz _
+
 /-! ### what the ISK signature covers -/
 
 theorem iskDataToSign_ok (pointOk : Bytes → Bool) (n : Nat) (i : IskCert) (wf : WFisk pointOk n i) (krd : Bytes) :
